@@ -173,7 +173,11 @@ fn is_children_empty(children: &[Node]) -> bool {
 fn is_empty_value(value: &Value) -> bool {
     match value {
         Value::Static { value, .. } => value.is_empty(),
-        Value::Dynamic { .. } => false,
+        // `{{ "" }}` is printed as an empty static string
+        Value::Dynamic { expression, .. } => match &**expression {
+            Expression::LitStr { value, .. } => value.is_empty(),
+            _ => false,
+        },
     }
 }
 
